@@ -1053,18 +1053,36 @@ impl TypeChecker {
         // dependencies between them. This means that we process them in a loop
         // where we exit either if we have no unresolved imports anymore or when
         // we can no longer make progress, in which case we error.
+        //
+        // A name that an import of this scope introduces goes before the same
+        // name in a surrounding scope. So an import that starts with the name
+        // that another unresolved import of this scope is going to introduce
+        // has to wait for that import, even if the name can already be found
+        // further out. Otherwise `import x.f; import m.x;` and
+        // `import m.x; import x.f;` could refer to different items.
         let mut paths = paths.to_vec();
         loop {
             let last_len = paths.len();
-            paths.retain(|p| self.import(scope, p).is_err());
+            let pending = paths.clone();
+            paths.retain(|p| {
+                let waits = pending.iter().any(|q| {
+                    !std::ptr::eq(*p, *q)
+                        && q.idents.last().map(|i| i.node)
+                            == p.idents.first().map(|i| i.node)
+                });
+                waits || self.import(scope, p).is_err()
+            });
             let new_len = paths.len();
             if new_len == 0 {
                 return Ok(());
             }
             if new_len == last_len {
+                // No progress: the remaining imports are wrong or wait for
+                // each other. Resolve them in order, which reports the error.
                 for p in &paths {
                     self.import(scope, p)?;
                 }
+                return Ok(());
             }
         }
     }
